@@ -1,5 +1,6 @@
 import STProofs.Layout
 import STProofs.RoundTrip
+import STProofs.DecodeAny
 /-!
 # C09 — decision-vector layout, dimension, initial-guess round trip, pinning, exposed spline
 
